@@ -14,6 +14,9 @@ def main(path):
         if p not in sys.path:
             sys.path.insert(0, p)
     doc = json.load(open(path))
+    from spec import stubs
+
+    stubs.install()
     import pyscsi
 
     print("replaying %s on %s (python %s)" % (doc["obligation"], os.path.dirname(pyscsi.__file__), sys.version.split()[0]))
